@@ -70,8 +70,11 @@ const handshakeSize = 12
 func performHandshake(rw io.ReadWriter) error {
 	var h handshake
 
-	// Copy exactly handshakeSize bytes from rw to handshake
-	if _, err := io.CopyN(&h, rw, handshakeSize); err != nil {
+	// Read exactly handshakeSize bytes from rw.  TCP may deliver them in more than one segment, so keep reading until
+	// they are all there (or the peer is gone) before handing them to handshake.Write, which wants the whole handshake.
+	buf := make([]byte, handshakeSize)
+	n, _ := io.ReadFull(rw, buf)
+	if _, err := h.Write(buf[:n]); err != nil {
 		return fmt.Errorf("read handshake: %w", err)
 	}
 	if !h.Valid() {
